@@ -117,7 +117,7 @@ void prop(DP &dp, const ref::Bytes &sched, Ctx &ctx) {
 		unsigned msgs_in_group = 0;
 		bool last_was_fault = false, seen_good = false, pending_fault_after_good = false;
 		for (unsigned i = 0; i < npk && (i == 0 || dp.more()); i++) {
-			unsigned kind = dp.weighted({10, 2, 2, 1, 1, 1});   // 0 good, 1 bitflip, 2 drop/insert, 3 truncate, 4 garbage, 5 extra delimiters
+			unsigned kind = dp.weighted({10, 2, 2, 1, 1, 1, 2});   // 0 good, 1 bitflip, 2 drop/insert, 3 truncate, 4 garbage, 5 extra delimiters, 6 cut behind an escape byte
 			if (kind == 5) {
 				unsigned k = (unsigned) dp.range(1, 3);
 				for (unsigned j = 0; j < k; j++) stream.push_back(0xFE);
@@ -160,7 +160,7 @@ void prop(DP &dp, const ref::Bytes &sched, Ctx &ctx) {
 			} else {
 				seqs = seqs_backup;    // the faulted packet is never seen by the receiver's numbering
 				const char *what = "";
-				bool closed = true;
+				bool closed = true, cut_after_escape = false;
 				if (kind == 1) {
 					size_t pos = dp.pick((unsigned) raw.size());
 					raw[pos] ^= (uint8_t) (1u << dp.pick(8));
@@ -173,6 +173,14 @@ void prop(DP &dp, const ref::Bytes &sched, Ctx &ctx) {
 					raw.resize(keep);
 					closed = false;
 					what = "truncated (closing delimiter lost)";
+				} else if (kind == 6) {
+					// the wire image is cut directly behind an escape byte (its partner and everything after it lost): the
+					// following delimiter must still be taken as a delimiter - 0xFE never occurs inside a packet
+					size_t keep = dp.pick((unsigned) raw.size());
+					raw.resize(keep);
+					closed = dp.chance(60);
+					cut_after_escape = true;
+					what = "cut behind an escape byte";
 				} else {
 					raw = dp.bytes((size_t) dp.range(1, 30), true);
 					what = "garbage fragment";
@@ -180,11 +188,12 @@ void prop(DP &dp, const ref::Bytes &sched, Ctx &ctx) {
 				if (raw.size() > 250) raw.resize(250);
 				// construction: the fragment must fail the CRC check
 				int guard = 0;
-				while (crc_zero(raw) && guard++ < 8) raw[raw.size() - 1] ^= 0x01;
+				while (!raw.empty() && crc_zero(raw) && guard++ < 8) raw[raw.size() - 1] ^= 0x01;
 				ref::Bytes f;
 				f.push_back(0xFE);
 				ref::Bytes e = escape_all(raw);
 				f.insert(f.end(), e.begin(), e.end());
+				if (cut_after_escape) { f.push_back(0xFD); ctx.tag("cut-behind-escape-byte"); }
 				if (closed) f.push_back(0xFE);
 				stream.insert(stream.end(), f.begin(), f.end());
 				faults++;
